@@ -216,6 +216,7 @@ class SrcEdit:
         *,
         del_else_and_fin: bool = True,
         del_else_and_fin_comms: bool = True,
+        keep_else_and_fin_block_comms: bool = True,
         **options: object,
     ) -> tuple[fstloc, fstloc | None, list[str] | None]:  # (copy_loc, del/put_loc, put_lines)
         """Copy or cut from block of statements. If cutting all elements from a deletable field like 'orelse' or
@@ -237,6 +238,10 @@ class SrcEdit:
         - `del_else_and_fin`: Whether to remove the 'else:' or 'finally:' if cutting all elements from that block.
         - `del_else_and_fin_comms`: Whether the comments preceding an 'else:' or 'finally:' which is removed are also
             removed (according to `precomms`). They are not if the 'else:' is just being replaced by an 'elif'.
+        - `keep_else_and_fin_block_comms`: Whether comment lines between an 'else:' or 'finally:' which is removed and
+            the first statement of its block which are not being removed (not selected by `precomms`) are returned in
+            `put_lines` so that they stay, otherwise they go with the 'else:'. They are not kept if the 'else:' is just
+            being replaced by an 'elif'.
         - `options`: See `FST` source editing `options`. Options used here `precomms`, `postcomms`, `prespace`,
             `postspace` and `pep8space`. `space` options determine how many empty lines to remove on a cut.
 
@@ -407,12 +412,29 @@ class SrcEdit:
                     or (field == 'orelse' and not ffirst.is_elif())  # check the node, source of another statement can also start with these letters 'elif_count = 1'
             )):
                 del_ln, del_col, del_end_ln, del_end_col = del_loc
+                head_ln, head_col = del_ln, del_col
 
                 del_ln, del_col = prev_find(lines, bound_ln, bound_col, del_ln, del_col,
                                             'finally' if is_finally else 'else', False, comment=False, lcont=False)  # `first=False` because have to skip over ':'
 
                 if put_lines:
                     put_lines[0] = lines[del_ln][:del_col] + put_lines[0]  # prepend block start indentation to existing indentation, silly but whatever
+
+                colon_ln, _ = next_find(lines, del_ln, del_col, head_ln, head_col, ':')  # must be there
+
+                if (keep_else_and_fin_block_comms
+                    and colon_ln < head_ln
+                    and (frag := next_frag(lines, colon_ln + 1, 0, head_ln, head_col, True))
+                    and frag.src.startswith('#')
+                ):  # comment lines between the block header and what is removed from the block (leading comments which are not selected), only the header goes, they are put back
+                    keep_lines = lines[colon_ln + 1 : head_ln]
+
+                    while re_empty_line_cont_or_comment.match(keep_lines[-1]).group(1) == '\\':  # not lone line continuations right before what is removed, they would link to whatever follows (there is at least the comment line so this ends)
+                        del keep_lines[-1]
+
+                    keep_lines.append(lines[head_ln][:head_col] if put_lines is None else put_lines[0])
+
+                    put_lines = keep_lines if put_lines is None else keep_lines + put_lines[1:]
 
                 if (del_else_and_fin_comms
                     and (pre_pre_comms := self.pre_comments(lines, bound_ln, bound_col, del_ln, 0,
@@ -873,7 +895,8 @@ class SrcEdit:
 
         _, put_loc, del_lines, _, (pre_semi, post_semi) = (
             self.get_slice_stmt(tgt_fst, field, True, block_loc, ffirst, flast, fpre, fpost,
-                                del_else_and_fin=del_else_and_fin, del_else_and_fin_comms=False, **options))  # del_else_and_fin only if 'else:' becomes 'elif', the comments above it stay where they are
+                                del_else_and_fin=del_else_and_fin, del_else_and_fin_comms=False,
+                                keep_else_and_fin_block_comms=False, **options))  # del_else_and_fin only if 'else:' becomes 'elif', the comments above it stay where they are
 
         put_ln, put_col, put_end_ln, put_end_col = put_loc
 
